@@ -99,6 +99,7 @@ Probes == <<
     P("insn_method", "last", F("insn_method", C, "t", "()V")),                 \* through L to T, both outside the jar
     P("insn_method", "last", F("insn_method", I, "m", "()V")),                 \* not inherited
     P("insn_method", "last", F("insn_method", "[Lp/A;", "clone", "()Ljava/lang/Object;")),
+    P("insn_method", "last", F("insn_method", "[Lp/B;", "m", "(Lp/A;)V")),             \* a method of an array class: the name stays
     P("insn_class", "last", K("insn_class", A)),
     P("insn_class", "last", K("insn_class", "[[Lp/A$I;")),
     P("insn_class", "last", K("insn_class", "[I")),
